@@ -458,6 +458,22 @@ func checkFrt(c *libCtx) {
 	if g := frt.SInterP("%s-%s-%s", 1, "b", false); g != "1-b-false" {
 		libViol("frt.SInterP", "holes filled in the wrong order", "1 b false", g, "1-b-false")
 	}
+	// the format fc emits for literal text containing percent signs: %% must stay a percent
+	// sign whatever follows it, and holes keep their positions
+	for _, tc := range []struct {
+		f    string
+		args []any
+		want string
+	}{
+		{"100%%sure", nil, "100%sure"}, {"[%%s] n=%s s=%s", []any{42, "ok"}, "[%s] n=42 s=ok"}, {"%s%%s", []any{7}, "7%s"}, {"%%%s", []any{"x"}, "%x"},
+		{"%%d %%v %%%% %s", []any{1}, "%d %v %% 1"}, {"%s%%", []any{"a"}, "a%"}, {"%%s%%s%s", []any{"z"}, "%s%sz"}, {"a%%", nil, "a%"},
+	} {
+		c.ev("frt.format", "percent:"+tc.f, true)
+		var g string
+		if p := call(func() { g = frt.SInterP(tc.f, tc.args...) }); p != nil || g != tc.want {
+			libViol("frt.SInterP", "percent signs / hole positions not preserved", fmt.Sprintf("%q %v", tc.f, tc.args), fmt.Sprintf("%q panic=%v", g, p), tc.want)
+		}
+	}
 	if g := frt.SInterP("plain"); g != "plain" {
 		libViol("frt.SInterP", "no-hole text altered", "plain", g, "plain")
 	}
